@@ -34,14 +34,16 @@ type Call struct {
 
 // Variant says how the log reaches the state machine.
 type Variant struct {
-	ID     string
-	Engine string
-	Replay bool
-	Shift  int      // index into shifts
-	Cut    int      // -1: none; otherwise backup after Cut requests, restore into a new store, replay the tail
-	Part   [][]Call // operator lifetimes (one applyEntries event each) -> calls
-	Syncer bool     // the entries carry Type = FromClusterSyncer (conflict pre-check when applied live)
-	Expire int      // local-deletion policy only: run the node-local expiry sweep after this many requests (-1: never)
+	ID         string
+	Engine     string
+	Replay     bool
+	Shift      int      // index into shifts
+	Cut        int      // -1: none; otherwise backup after Cut requests, restore into a new store, replay the tail
+	Part       [][]Call // operator lifetimes (one applyEntries event each) -> calls
+	compactSet bool     // (generation only) Compact was set on purpose
+	Compact    int      // >= 0: force a full compaction of the store after this many requests (-1: never)
+	Syncer     bool     // the entries carry Type = FromClusterSyncer (conflict pre-check when applied live)
+	Expire     int      // local-deletion policy only: run the node-local expiry sweep after this many requests (-1: never)
 }
 
 // years relative to the wall clock at which the log's base time is placed
@@ -165,9 +167,15 @@ func (v *Variant) line() string {
 	if v.Replay {
 		rp = "1"
 	}
-	fl := "-"
+	fl := ""
 	if v.Syncer {
-		fl = "s"
+		fl += "s"
+	}
+	if v.Compact >= 0 {
+		fl += "c" + strconv.Itoa(v.Compact)
+	}
+	if fl == "" {
+		fl = "-"
 	}
 	return fmt.Sprintf("%s\tVAR\t%s\t%s\t%d\t%d\t%d\t%s\t%s", v.ID, v.Engine, rp, v.Shift, v.Cut, v.Expire, partString(v.Part), fl)
 }
@@ -190,8 +198,18 @@ func parseVariant(f []string) (*Variant, error) {
 	if v.Part, err = parsePart(f[7]); err != nil {
 		return nil, err
 	}
-	if len(f) > 8 && strings.Contains(f[8], "s") {
-		v.Syncer = true
+	v.Compact = -1
+	if len(f) > 8 {
+		fl := f[8]
+		if strings.HasPrefix(fl, "s") {
+			v.Syncer = true
+			fl = fl[1:]
+		}
+		if strings.HasPrefix(fl, "c") {
+			if n, err := strconv.Atoi(fl[1:]); err == nil {
+				v.Compact = n
+			}
+		}
 	}
 	return v, nil
 }
@@ -313,9 +331,9 @@ var (
 const sec = int64(1000000000)
 
 func (g *gen) pick(l []string) string { return l[g.r.Intn(len(l))] }
-func (g *gen) key() string           { return g.pick(g.keys) }
-func (g *gen) mem() string           { return g.pick(g.mems) }
-func (g *gen) val() string           { return g.pick(g.vals) }
+func (g *gen) key() string            { return g.pick(g.keys) }
+func (g *gen) mem() string            { return g.pick(g.mems) }
+func (g *gen) val() string            { return g.pick(g.vals) }
 func (g *gen) subset(l []string, n int) []string {
 	if n > len(l) {
 		n = len(l)
